@@ -892,11 +892,25 @@ class SymMixin:
                 if all(isinstance(r, ListV) for r in res) and len({len(r.items) for r in res}) == 1:
                     n = len(res[0].items)
                     return ListV([self.one_of_sym((name, kterm(o), i), [r.items[i] for r in res]) for i in range(n)])
+                if all(isinstance(r, tuple) for r in res) and len({len(r) for r in res}) == 1:
+                    n = len(res[0])  # str.partition and friends: one candidate-correlated symbol per position
+                    return tuple(self.one_of_sym((name, kterm(o), tuple(kterm(x) for x in a), i), [r[i] for r in res]) for i in range(n))
                 return self.one_of_sym((name, kterm(o)), res)
         k = self.kind_of(o, run) if isinstance(o, Sym) else {
             bytes: "bytes", str: "str", int: "int", float: "float", _dt.datetime: "datetime", _dt.timedelta: "timedelta",
             _uuid.UUID: "uuid", tuple: "tuple"}.get(type(o), "any")
         t = kterm(o)
+        if k == "bytes" and name == "join" and isinstance(o, bytes) and len(a) == 1 and not kw and isinstance(a[0], (ListV, tuple)) \
+                and not (isinstance(a[0], ListV) and a[0].may):
+            parts = list(a[0].items if isinstance(a[0], ListV) else a[0])
+            if all(isinstance(x, bytes) or (isinstance(x, Sym) and self.kind_of(x, run) == "bytes") for x in parts):
+                lens = [len(x) if isinstance(x, bytes) else x.info.get("len") for x in parts]
+                total = None
+                if all(l is not None for l in lens):
+                    total = len(o) * max(len(parts) - 1, 0)
+                    for l in lens:
+                        total = self.binop("add", total, l, run, node)
+                return Sym(("join", kterm(o), tuple(kterm(x) for x in parts)), "bytes", len=total, parts=parts)
         at = tuple(kterm(x) for x in a) + tuple((kk, kterm(v)) for kk, v in sorted(kw.items()))
         site = self.site(node)
         if k == "bytes" and name == "decode":
